@@ -43,7 +43,7 @@ extern "C" void h_idfeat_ref()
 {
     VpRaw<QXmppDiscoveryIq> raw; QXmppDiscoveryIq *iq = rawIq(raw);
     IdT ids[NID]; Txt fs[NFEAT];
-    unsigned nid = symCount(NID, C_NID), nf = symCount(NFEAT, C_NF);
+    unsigned nid = symCount(0, NID), nf = symCount(1, NFEAT);
     symIdentities(ids, nid); symFeatures(fs);
     setIdentities(iq, ids, nid); setFeatures(iq, fs, nf);
 
@@ -52,6 +52,123 @@ extern "C" void h_idfeat_ref()
     Ref r;
     ref_identities(r, ids, nid);
     ref_features(r, fs, nf);
+    check_against_oracle(r, ver);
+}
+
+// (i)+(iii) features: two arbitrary feature lists hash the same string iff they are equal as sets
+static bool featSubset(const Txt a[], unsigned na, const Txt b[], unsigned nb)
+{
+    bool all = true;
+    for (unsigned i = 0; i < NFEAT; i++) if (i < na) {
+        bool found = false;
+        for (unsigned j = 0; j < NFEAT; j++) if (j < nb && txtCmp(a[i], b[j]) == 0) found = true;
+        if (!found) all = false;
+    }
+    return all;
+}
+static void checkIff(bool same, const QByteArray &va, const QByteArray &vb, const char *ifMsg, const char *onlyIfMsg)
+{
+    vp_assert(vp_hash_calls() == 2 && vp_hash_alg(0) == 2 && vp_hash_alg(1) == 2, "C20 each verificationString computes exactly one SHA-1 hash");
+    bool sameS = vp_hash_input_eq(0, 1);
+    vp_assert(!same || sameS, ifMsg);
+    vp_assert(same || !sameS, onlyIfMsg);
+    vp_assert(vp_hash_output_is(0, &va) && vp_hash_output_is(1, &vb), "C20 verificationString returns the SHA-1 digest of the hashed string");
+    vp_assert(!sameS || vp_hash_same_output(0, 1), "C20 equal hashed strings give equal verification strings");
+}
+extern "C" void h_feat_iff()
+{
+    VpRaw<QXmppDiscoveryIq> ra, rb; QXmppDiscoveryIq *A = rawIq(ra), *B = rawIq(rb);
+    Txt fa[NFEAT], fb[NFEAT];
+    unsigned na = symCount(0, NFEAT), nb = symCount(1, NFEAT);
+    symFeatures(fa); symFeatures(fb);
+    setFeatures(A, fa, na); setFeatures(B, fb, nb);
+    QByteArray va = A->verificationString();
+    QByteArray vb = B->verificationString();
+    bool sameSet = featSubset(fa, na, fb, nb) && featSubset(fb, nb, fa, na);
+    checkIff(sameSet, va, vb, "C20 reordering or repeating features does not change the hashed string",
+             "C20 adding, removing or altering a feature changes the hashed string");
+}
+// (i)+(iii) identities: two identity lists hash the same string iff they are equal as multisets
+static bool idEq(const IdT &a, const IdT &b) { return idCmp(a, b) == 0; }
+extern "C" void h_id_iff()
+{
+    VpRaw<QXmppDiscoveryIq> ra, rb; QXmppDiscoveryIq *A = rawIq(ra), *B = rawIq(rb);
+    IdT ia[NID], ib[NID];
+    unsigned na = symCount(0, NID), nb = symCount(1, NID);
+    symIdentities(ia, na); symIdentities(ib, nb);
+    setIdentities(A, ia, na); setIdentities(B, ib, nb);
+    QByteArray va = A->verificationString();
+    QByteArray vb = B->verificationString();
+    static_assert(NID == 2, "multiset equality below is written for at most 2 identities");
+    bool same = na == nb && (na == 0 || (na == 1 && idEq(ia[0], ib[0])) ||
+                             (na == 2 && ((idEq(ia[0], ib[0]) && idEq(ia[1], ib[1])) || (idEq(ia[0], ib[1]) && idEq(ia[1], ib[0])))));
+    checkIff(same, va, vb, "C20 reordering identities does not change the hashed string",
+             "C20 adding, removing or altering an identity changes the hashed string");
+}
+
+// ---- extension form ----
+// field order in the form: a symbolic permutation of [FORM_TYPE, field 0, field 1]; value order inside a multi-valued field is
+// the (arbitrary) order of the symbolic values themselves
+static QXmppDataForm::Field mkField(const FieldT &f)
+{
+    if (f.multi) {
+        QStringList vals;
+        for (unsigned k = 0; k < NVAL; k++) if (k < f.nval) { QString q = qstr(f.val[k]); vp_c20_strlist_push(&vals, &q); }
+        return QXmppDataForm::Field(QXmppDataForm::Field::ListMultiField, qstr(f.key), QVariant(vals));
+    }
+    return QXmppDataForm::Field(QXmppDataForm::Field::TextSingleField, qstr(f.key), f.nval ? QVariant(qstr(f.val[0])) : QVariant());
+}
+static void setForm(QXmppDiscoveryIq *iq, bool hasFormType, const Txt &formType, const FieldT fields[], unsigned nfields, unsigned ftPos)
+{
+    QList<QXmppDataForm::Field> fl;
+    for (unsigned pos = 0; pos <= NFIELD; pos++) {
+        if (hasFormType && pos == ftPos)
+            vp_c20_list_push(&fl, new QXmppDataForm::Field(QXmppDataForm::Field::HiddenField, u"FORM_TYPE"_s, QVariant(qstr(formType))));
+        if (pos < nfields) vp_c20_list_push(&fl, new QXmppDataForm::Field(mkField(fields[pos])));
+    }
+    iq->setForm(QXmppDataForm(QXmppDataForm::Result, fl));
+}
+static void symFields(FieldT fields[], unsigned nfields)
+{
+    for (unsigned i = 0; i < NFIELD; i++) {
+        fields[i].key = symTxt();
+        fields[i].multi = vp_bool();
+        fields[i].nval = symCount(2 + i, NVAL);
+        for (unsigned k = 0; k < NVAL; k++) fields[i].val[k] = symTxt();
+        // XEP-0004: var is unique within a form, FORM_TYPE is reserved (a 0..2 unit key over the alphabet never equals it)
+        if (i > 0 && i < nfields) vp_assume(txtCmp(fields[i].key, fields[0].key) != 0);
+        if (!fields[i].multi) vp_assume(fields[i].nval <= 1);
+#ifdef KF_empty_field_value
+        // known finding: a field without any <value/> (empty single value or empty value list) is hashed as "var<<"
+        vp_assume(fields[i].nval >= 1);
+        if (!fields[i].multi) vp_assume(fields[i].val[0].len >= 1);
+#endif
+    }
+}
+// the value toXml() would serialise for a single-valued field: an empty value is written as NO <value/> element
+static void normalise(FieldT fields[], unsigned nfields)
+{
+    for (unsigned i = 0; i < NFIELD; i++) if (i < nfields && !fields[i].multi && fields[i].nval == 1 && fields[i].val[0].len == 0) fields[i].nval = 0;
+}
+extern "C" void h_form_ref()
+{
+    VpRaw<QXmppDiscoveryIq> raw; QXmppDiscoveryIq *iq = rawIq(raw);
+    IdT ids[NID]; Txt fs[NFEAT]; FieldT fields[NFIELD];
+    unsigned nid = symCount(0, NID), nf = symCount(1, NFEAT);
+    symIdentities(ids, nid); symFeatures(fs);
+    setIdentities(iq, ids, nid); setFeatures(iq, fs, nf);
+    bool hasFormType = vp_bool(); Txt formType = symTxt();
+    unsigned nfields = symCount(4, NFIELD); unsigned ftPos = vp_u32(); vp_assume(ftPos <= nfields);
+    symFields(fields, nfields);
+    setForm(iq, hasFormType, formType, fields, nfields, ftPos);
+
+    QByteArray ver = iq->verificationString();
+
+    normalise(fields, nfields);
+    Ref r;
+    ref_identities(r, ids, nid);
+    ref_features(r, fs, nf);
+    ref_form(r, hasFormType, formType, fields, nfields);
     check_against_oracle(r, ver);
 }
 #ifdef C20_PROBE
